@@ -79,6 +79,52 @@ theorem override_applies (dM dL : Nat) (base o : Section) (lang : String) (m l :
     effective dM dL base [(lang, o)] lang = (m, l) := by
   simp [effective, List.find?, hm, hl]
 
+/-- a class that grows (more methods, more code lines, same name) is never un-reported -/
+theorem growth_monotone (c : Cfg) (m m' l l' : Nat) (kw : Bool) (hm : m ≤ m') (hl : l ≤ l') :
+    reported c m l kw = true → reported c m' l' kw = true := by
+  rw [srp_iff, srp_iff]
+  rintro (h | h | h)
+  · exact Or.inl (by omega)
+  · exact Or.inr (Or.inl (by omega))
+  · exact Or.inr (Or.inr h)
+
+/-- at most one issue of each kind: never more than three per class -/
+theorem issues_le_three (c : Cfg) (m l : Nat) (kw : Bool) : (evaluate c m l kw).length ≤ 3 := by
+  unfold evaluate
+  by_cases h1 : m > c.maxMethods <;> by_cases h2 : l > c.maxLoc <;> cases c.checkKeywords <;> cases kw <;> simp [h1, h2]
+
+/-- the order in which the members are written does not change the count -/
+theorem count_perm (l : Lang) (a b : List Member) (h : a.Perm b) : countMethods l a = countMethods l b := by
+  unfold countMethods
+  exact (h.filter _).length_eq
+
+/-- the method count never exceeds the number of members, the line count never the span -/
+theorem count_le (l : Lang) (ms : List Member) (lines : List LineKind) :
+    countMethods l ms ≤ ms.length ∧ countLoc l lines ≤ lines.length := by
+  unfold countMethods countLoc
+  exact ⟨List.length_filter_le _ _, List.length_filter_le _ _⟩
+
+/-- moving blank and comment lines around (or reordering the body) leaves the size unchanged -/
+theorem loc_perm (l : Lang) (a b : List LineKind) (h : a.Perm b) : countLoc l a = countLoc l b := by
+  unfold countLoc
+  exact (h.filter _).length_eq
+
+/-- a language sub-section that sets only one threshold leaves the other to the base value / default -/
+theorem override_partial (dM dL : Nat) (base o : Section) (lang : String) (m : Nat)
+    (hm : o.maxMethods = some m) (hl : o.maxLoc = none) :
+    effective dM dL base [(lang, o)] lang = (m, base.maxLoc.getD dL) := by
+  simp [effective, List.find?, hm, hl, Option.orElse]
+
+/-- without any sub-section: base values, then the defaults -/
+theorem no_override (dM dL : Nat) (lang : String) (m : Nat) :
+    effective dM dL ⟨none, none⟩ [] lang = (dM, dL) ∧ effective dM dL ⟨some m, none⟩ [] lang = (m, dL) := by
+  simp [effective]
+
+/-- the first sub-section for a language wins (dictionary semantics of the loader: one key, one section) -/
+theorem override_first (dM dL : Nat) (base o o' : Section) (lang : String) (rest : List (String × Section)) :
+    effective dM dL base ((lang, o) :: (lang, o') :: rest) lang = effective dM dL base [(lang, o)] lang := by
+  simp [effective, List.find?]
+
 /-- non-vacuity -/
 example : countMethods .py [.pub, .priv, .dunder, .ctor, .property, .static, .pub, .asyncPub] = 4 ∧
     countMethods .ts [.pub, .priv, .ctor, .property, .static] = 3 ∧ countMethods .rs [.ctor, .pub, .priv] = 2 ∧
